@@ -88,7 +88,8 @@ def run(chk, tier):
     import orphan
     nor = orphan.run(chk, P, ["topology.c"])
     chk.floor("R-ORPHAN", "release sites x child lists", nor, 12)
-    chk.decided += ["inconsistent flags -> EINVAL (all words); every EINVAL/EPERM exit precedes any write to the topology",
+    chk.decided += ['Misc/memory/I-O/normal children of a removed object are re-attached or released on every path before the object is freed',
+                    "inconsistent flags -> EINVAL (all words); every EINVAL/EPERM exit precedes any write to the topology",
                     "post-restrict fix-ups present on every success path, each cache invalidation under its own flag",
                     "NUMA nodes/PUs removed only with REMOVE_CPULESS/REMOVE_MEMLESS; I/O and Misc dropped only without ADAPT; cpusets and nodesets never mixed"]
     chk.undecided += ["that the dropped sets are computed correctly from S and every survivor has 'old sets minus dropped' (set algebra over a runtime tree)", "level-merge decisions"]
